@@ -66,7 +66,7 @@ inductive Discharge
   /-- `sorted(s)` (Gen fact `sortedConsumer`: the set is the argument of the built-in sort): the result is a function of the
   ELEMENTS, not of the iteration order (lemma `sortedIter_invariant`) -/
   | setSorted
-  /-- set → loop → list → `set(...)` -/
+  /-- set → loop → list → `set(...)` (the loop is TRANSLATED from the source: Gen/NondetLoops.lean, `C03_gen_loops_order_free`) -/
   | setToSet
   /-- the loop body has no effect -/
   | setNoEffect
@@ -104,7 +104,11 @@ inductive Basis | lemma | mechanical | trusted | openFinding
 
 def Discharge.basis : Discharge → Basis
   | .fixedWidthReading | .fixedLenSecret | .clockNotRead | .seededRng | .seeding | .unseededByConfig | .offline | .setDeclCovered | .setEmpty
-  | .setSingleton | .hashValueDiscarded | .setSorted => .mechanical
+  | .setSingleton | .hashValueDiscarded | .setSorted
+  -- since round 7 the premise "the code's loop IS this consumer" is a Gen fact too: the loop is translated from the source and checked
+  -- well-formed with the matching use (`C03_gen_loops_order_free`, Props/C03Loops.lean); a set DECLARATION with `setLengthOnly` must
+  -- have no iteration / escape site at all (`declUses []`)
+  | .setToSet | .setNoEffect | .setLengthOnly | .setDictByKey => .mechanical
   | .hashNotIterated | .setMembershipOnly | .setIntHash | .idTextEqOnly => .trusted
   | _ => .lemma
 
@@ -158,6 +162,7 @@ def Discharge.supportedBy : Discharge → Fact → Bool
   | .setEmpty, .emptySetLiteral => true
   | .setEmpty, .declUses _ => true      -- the declaration; its iteration carries `neverWritten`
   | .setEmpty, _ => false
+  | .setLengthOnly, .declUses idx => idx.isEmpty   -- a declared set that is only ever `len()`-ed: no iteration / escape site names it
   | _, _ => true
 
 /-- The statement behind each reason. -/
